@@ -150,6 +150,12 @@ def run(ctx):
         strs.append(''.join(rng.choice(alphabet) for _ in range(rng.randint(0, 8))))
     for s in strs:
         r = bcommon._v3_prefixes_from_v2_prefix(s)
+        # documented rule (cli usage.adoc, barectf 2 `prefix` option), independent of the translated function:
+        # identifier prefix = PREFIX, file name prefix = PREFIX without TRAILING underscores
+        doc_rule = (s, s.rstrip('_'))
+        if (r.identifier, r.file_name) != doc_rule:
+            ctx.violation('prefix %r: the barectf 2 / --prefix rule gives (identifier %r, file name %r), documented: %r' % (
+                s, r.identifier, r.file_name, doc_rule), {'prefix': s, 'real': [r.identifier, r.file_name], 'documented': list(doc_rule)})
         coq_cases['v2'].append('(%s, (%s, %s))' % (coq_str(s), coq_str(r.identifier), coq_str(r.file_name)))
         meta['v2'].append(s)
     for s in ['barectf', 'a', 'a_', 'my_prefix', 'X9', '_x', 'a_b', 'trace_', '__']:
@@ -293,7 +299,7 @@ def run(ctx):
                 meta['macro'].append({'prefix': pf, 'default_stream': dst, 'ert': ert, 'expansion': m2.group(1), 'via': 'tracepoint()', 'yaml': G.yaml_text(doc)})
         nmac += 1
     # ---- 6. CLI --prefix
-    for pv in ['xyz_', 'xyz', 'q__', 'A_b_']:
+    for pv in ['xyz_', 'xyz', 'q__', 'A_b_', '_trc_', '__u']:
         doc = simple_doc('ignored', 's', 'e')
         d = os.path.join(ctx.scratch, 'cli_' + pv)
         p = d + '.yaml'
@@ -305,6 +311,11 @@ def run(ctx):
             continue
         cfile = [n for n in files if n.endswith('.c')]
         syms = []
+        fpv = pv.rstrip('_')
+        want_files = sorted([fpv + '.c', fpv + '.h', fpv + '-bitfield.h', 'metadata'])
+        if sorted(files) != want_files:
+            ctx.violation('with --prefix=%s the generated files are %s, documented (PREFIX without trailing underscores): %s' % (pv, sorted(files), want_files),
+                          {'yaml': G.yaml_text(doc), 'cli': 'barectf generate --prefix=' + pv, 'files': sorted(files)})
         # the shorthand macro of the default data stream type must survive the --prefix override
         hfile = [n for n in files if n.endswith('.h') and 'bitfield' not in n]
         if len(hfile) == 1:
